@@ -1,5 +1,167 @@
-(* C05_Proofs.v — lemmas about the C05 model. *)
+(* C05_Proofs.v — lemmas about the C05 model: one pipeline is all-or-nothing for every body,
+   every set of failing driver operations and failing hooks; the reported error is exactly the
+   accumulation of the failed events; every transaction that was begun is ended. *)
 From Verif Require Import Base C05_Model C05_Check.
 
-Lemma run_op_nil : forall df hf db, s_db (run_op df hf [] db) = db.
-Proof. reflexivity. Qed.
+
+(* db.Error is exactly the accumulation of the failed events, in order *)
+Definition ErrInv (s : st) : Prop := s_err s = map ev_errk (filter ev_failed (rev (s_out s))).
+
+Lemma errinv_push_ok : forall err out e, ev_failed e = false ->
+  err = map ev_errk (filter ev_failed (rev out)) -> err = map ev_errk (filter ev_failed (rev (e :: out))).
+Proof. intros err out e He H. cbn [rev]. rewrite filter_app. cbn [filter]. rewrite He, app_nil_r. exact H. Qed.
+Lemma errinv_push_fail : forall err out e, ev_failed e = true ->
+  err = map ev_errk (filter ev_failed (rev out)) ->
+  err ++ [ev_errk e] = map ev_errk (filter ev_failed (rev (e :: out))).
+Proof. intros err out e He H. cbn [rev]. rewrite filter_app, map_app. cbn [filter]. rewrite He. cbn [map]. rewrite H. reflexivity. Qed.
+
+Lemma app_not_nil : forall (A : Type) (l : list A) x, l ++ [x] <> [].
+Proof. intros A l x H. destruct l; discriminate. Qed.
+
+Section Facts.
+Variable dfault : nat -> bool.
+Variable hfault : nat -> bool.
+
+Record step_ok (s s' : st) (e : ev) : Prop := {
+  so_db : s_db s' = s_db s;
+  so_commits : s_commits s' = s_commits s;
+  so_open : s_open s' = s_open s;
+  so_stop : s_stop s' = s_stop s;
+  so_sid : s_sid s' = (s_sid s + (if is_stmt e then 1 else 0))%nat;
+  so_mono : s_err s <> [] -> s_err s' <> [];
+  so_clean : s_err s' = [] -> s_err s = [] /\ s_work s' = s_work s ++ (if is_stmt e then [s_sid s] else []);
+  so_inv : ErrInv s -> ErrInv s'
+}.
+
+Lemma step_facts : forall s e, step_ok s (step dfault hfault s e) e.
+Proof.
+  assert (Same : forall s e, is_stmt e = false -> step_ok s s e).
+  { intros s e He. apply Build_step_ok; rewrite ?He; auto; try lia.
+    intro H; split; [exact H | rewrite app_nil_r; reflexivity]. }
+  intros s e. destruct e as [[| | |] f | f |]; cbn [step]; try (apply Same; reflexivity).
+  - (* statement *)
+    destruct (is_nil (s_err s)) eqn:En.
+    + unfold issue; cbn [s_err s_nops s_out s_live s_stop s_nhooks s_sid s_work s_db s_commits s_open].
+      destruct (dfault (s_nops s)) eqn:Ef;
+        apply Build_step_ok; cbn [s_err s_nops s_out s_live s_stop s_nhooks s_sid s_work s_db s_commits s_open is_stmt];
+        try reflexivity; try lia.
+      * intros _; apply app_not_nil.
+      * intro H; contradiction (app_not_nil _ _ _ H).
+      * unfold ErrInv; cbn [s_err s_out]. intro H. apply (errinv_push_fail _ (s_out s) (EOp DStmt true) eq_refl H).
+      * auto.
+      * intro H; split; [exact H | reflexivity].
+      * unfold ErrInv; cbn [s_err s_out]. intro H. apply (errinv_push_ok _ (s_out s) (EOp DStmt false) eq_refl H).
+    + apply Build_step_ok; cbn [s_err s_nops s_out s_live s_stop s_nhooks s_sid s_work s_db s_commits s_open is_stmt];
+        try reflexivity; try lia; auto.
+      intro H. rewrite H in En. discriminate.
+  - (* hook *)
+    destruct (s_live s); [|apply Same; reflexivity].
+    destruct (hfault (s_nhooks s)) eqn:Ef;
+      apply Build_step_ok; cbn [s_err s_nops s_out s_live s_stop s_nhooks s_sid s_work s_db s_commits s_open is_stmt];
+      try reflexivity; try lia.
+    + intros _; apply app_not_nil.
+    + intro H; contradiction (app_not_nil _ _ _ H).
+    + unfold ErrInv; cbn [s_err s_out]. intro H. apply (errinv_push_fail _ (s_out s) (EHook true) eq_refl H).
+    + auto.
+    + intro H; split; [exact H | rewrite app_nil_r; reflexivity].
+    + unfold ErrInv; cbn [s_err s_out]. intro H. apply (errinv_push_ok _ (s_out s) (EHook false) eq_refl H).
+  - (* mark *)
+    apply Build_step_ok; cbn [s_err s_nops s_out s_live s_stop s_nhooks s_sid s_work s_db s_commits s_open is_stmt];
+      try reflexivity; try lia; auto.
+    intro H; split; [exact H | rewrite app_nil_r; reflexivity].
+Qed.
+
+(* a whole body *)
+Lemma body_facts : forall b s, let s' := fold_left (step dfault hfault) b s in
+  s_db s' = s_db s /\ s_commits s' = s_commits s /\ s_open s' = s_open s /\ s_stop s' = s_stop s
+  /\ s_sid s' = (s_sid s + nstmts b)%nat
+  /\ (s_err s <> [] -> s_err s' <> [])
+  /\ (s_err s' = [] -> s_err s = [] /\ s_work s' = s_work s ++ seq (s_sid s) (nstmts b))
+  /\ (ErrInv s -> ErrInv s').
+Proof.
+  induction b as [|e b IH]; intro s; cbn [fold_left].
+  - unfold nstmts; cbn. rewrite Nat.add_0_r, app_nil_r. repeat split; auto.
+  - destruct (step_facts s e) as [A1 A2 A3 A4 A5 A6 A7 A8].
+    specialize (IH (step dfault hfault s e)). cbv zeta in IH.
+    destruct IH as (B1 & B2 & B3 & B4 & B5 & B6 & B7 & B8).
+    unfold nstmts in *. cbn [filter]. cbv zeta.
+    split; [congruence|]. split; [congruence|]. split; [congruence|]. split; [congruence|].
+    split. { rewrite B5, A5. destruct (is_stmt e); cbn [length]; lia. }
+    split. { auto. }
+    split; [|auto].
+    intro H. destruct (B7 H) as [C1 C2]. destruct (A7 C1) as [D1 D2]. split; [exact D1|].
+    rewrite C2, D2, A5. destruct (is_stmt e); cbn [length seq].
+    + rewrite <- app_assoc. cbn [app]. rewrite Nat.add_1_r. reflexivity.
+    + rewrite app_nil_r, Nat.add_0_r. reflexivity.
+Qed.
+
+Lemma issue_inv : forall k s f s1, issue dfault k s = (f, s1) -> ErrInv s -> ErrInv s1.
+Proof.
+  intros k s f s1 H Hi. unfold issue in H. inversion H; subst. unfold ErrInv in *; cbn [s_err s_out].
+  destruct (dfault (s_nops s)).
+  - apply (errinv_push_fail _ (s_out s) (EOp k true) eq_refl Hi).
+  - apply (errinv_push_ok _ (s_out s) (EOp k false) eq_refl Hi).
+Qed.
+
+(* ONE PIPELINE, entered with db.Error == nil: it either commits everything (no event failed)
+   or nothing (Error set, the operation stops); the transaction is ended either way *)
+Lemma pipe_facts : forall s b, s_stop s = false -> s_err s = [] ->
+  let s' := run_pipe dfault hfault s b in
+  s_open s' = s_open s /\ s_sid s' = (s_sid s + nstmts b)%nat /\ (ErrInv s -> ErrInv s') /\
+  ((s_err s' = [] /\ s_stop s' = false /\ s_db s' = s_db s ++ seq (s_sid s) (nstmts b)
+     /\ s_commits s' = S (s_commits s))
+   \/ (s_err s' <> [] /\ s_stop s' = true /\ s_db s' = s_db s /\ s_commits s' = s_commits s)).
+Proof.
+  intros s b Hstop Herr. unfold run_pipe. rewrite Hstop. cbv zeta.
+  destruct (issue dfault DBegin s) as [f0 s0] eqn:Ei. unfold issue in Ei. inversion Ei; subst f0 s0. clear Ei.
+  cbn [s_err s_nops s_out s_live s_stop s_nhooks s_sid s_work s_db s_commits s_open].
+  destruct (dfault (s_nops s)) eqn:Ef.
+  - (* BEGIN failed *)
+    cbn [s_err s_open s_sid s_stop s_db s_commits s_out]. rewrite Herr.
+    split; [reflexivity|]. split; [reflexivity|].
+    split. { unfold ErrInv; cbn [s_err s_out]. intro H. rewrite Herr in H.
+             apply (errinv_push_fail [] (s_out s) (EOp DBegin true) eq_refl H). }
+    right. repeat split; auto. discriminate.
+  - match goal with |- context [fold_left (step dfault hfault) b ?sx] => set (s1 := sx) end.
+    pose proof (body_facts b s1) as HB. cbv zeta in HB.
+    set (s2 := fold_left (step dfault hfault) b s1) in *.
+    destruct HB as (B1 & B2 & B3 & B4 & B5 & B6 & B7 & B8).
+    assert (I1 : ErrInv s -> ErrInv s1).
+    { unfold ErrInv; subst s1; cbn [s_err s_out]. intro H. rewrite Herr in *.
+      apply (errinv_push_ok [] (s_out s) (EOp DBegin false) eq_refl H). }
+    subst s1. cbn [s_err s_open s_sid s_stop s_db s_commits s_out s_work] in *.
+    destruct (is_nil (s_err s2)) eqn:En.
+    + assert (Ee : s_err s2 = []) by (destruct (s_err s2); [reflexivity | discriminate]).
+      destruct (B7 Ee) as [_ Hw]. cbn [app] in Hw.
+      destruct (issue dfault DCommit s2) as [fc s3] eqn:Ei. unfold issue in Ei. inversion Ei; subst fc s3. clear Ei.
+      destruct (dfault (s_nops s2)) eqn:Efc; cbn [s_err s_open s_sid s_stop s_db s_commits s_out s_work].
+      * (* COMMIT failed *)
+        rewrite Ee, B3. split; [lia|]. split; [exact B5|].
+        split. { intro H. specialize (B8 (I1 H)). unfold ErrInv in *; cbn [s_err s_out]. rewrite Ee in B8.
+                 apply (errinv_push_fail [] (s_out s2) (EOp DCommit true) eq_refl B8). }
+        right. split; [discriminate|]. split; [reflexivity|]. split; [exact B1 | exact B2].
+      * rewrite Ee, B3, Hw, B1, B2. split; [lia|]. split; [exact B5|].
+        split. { intro H. specialize (B8 (I1 H)). unfold ErrInv in *; cbn [s_err s_out]. rewrite Ee in B8.
+                 apply (errinv_push_ok [] (s_out s2) (EOp DCommit false) eq_refl B8). }
+        left. repeat split; reflexivity.
+    + (* an event of the body failed: ROLLBACK *)
+      assert (Hne : s_err s2 <> []) by (intro H; rewrite H in En; discriminate).
+      destruct (issue dfault DRollback s2) as [fr s3] eqn:Ei. unfold issue in Ei. inversion Ei; subst fr s3. clear Ei.
+      cbn [s_err s_open s_sid s_stop s_db s_commits s_out s_work].
+      rewrite B3. split; [lia|]. split; [exact B5|].
+      split. { intro H. specialize (B8 (I1 H)). unfold ErrInv in *; cbn [s_err s_out].
+               destruct (dfault (s_nops s2)).
+               - apply (errinv_push_fail _ (s_out s2) (EOp DRollback true) eq_refl B8).
+               - apply (errinv_push_ok _ (s_out s2) (EOp DRollback false) eq_refl B8). }
+      right. split. { destruct (dfault (s_nops s2)); [apply app_not_nil | exact Hne]. }
+      split; [reflexivity|]. split; [exact B1 | exact B2].
+Qed.
+
+(* after a failed pipeline nothing more happens *)
+Lemma pipe_stopped : forall s b, s_stop s = true ->
+  let s' := run_pipe dfault hfault s b in
+  s_open s' = s_open s /\ s_sid s' = (s_sid s + nstmts b)%nat /\ s_err s' = s_err s /\ s_stop s' = true
+  /\ s_db s' = s_db s /\ s_commits s' = s_commits s /\ s_out s' = s_out s.
+Proof. intros s b H. unfold run_pipe. rewrite H. cbn. repeat split; reflexivity. Qed.
+
+End Facts.
